@@ -138,7 +138,10 @@ func hotMod() *mod {
 			return nil
 		}
 		mk := func(id string, thr int64, uq int) *hotspot.Rule {
-			x := &hotspot.Rule{ID: id, Resource: res, MetricType: hotspot.Concurrency, ParamIndex: 0, Threshold: thr}
+			// (QPS rules: their verdict for threshold 0 / 1e9 does not depend on counters. Concurrency rules would
+			// not do: an entry admitted under one list and exited under another decrements a counter it never
+			// incremented, which is outside what C15 promises and would blur the oracle)
+			x := &hotspot.Rule{ID: id, Resource: res, MetricType: hotspot.QPS, ControlBehavior: hotspot.Reject, ParamIndex: 0, Threshold: thr, DurationInSec: 1}
 			if uq > 0 {
 				x.SpecificItems = map[interface{}]int64{fmt.Sprintf("uq-%d", uq): 1}
 			}
